@@ -232,81 +232,81 @@ func evaluateTokens(msg messageInfo, tokens []string, charset string, userID int
 			i++
 
 		case "ANSWERED":
-			if !strings.Contains(msg.flags, "\\Answered") {
+			if !hasFlag(msg.flags, "\\Answered") {
 				return false
 			}
 			i++
 
 		case "DELETED":
-			if !strings.Contains(msg.flags, "\\Deleted") {
+			if !hasFlag(msg.flags, "\\Deleted") {
 				return false
 			}
 			i++
 
 		case "DRAFT":
-			if !strings.Contains(msg.flags, "\\Draft") {
+			if !hasFlag(msg.flags, "\\Draft") {
 				return false
 			}
 			i++
 
 		case "FLAGGED":
-			if !strings.Contains(msg.flags, "\\Flagged") {
+			if !hasFlag(msg.flags, "\\Flagged") {
 				return false
 			}
 			i++
 
 		case "NEW":
 			// NEW = RECENT UNSEEN
-			if !strings.Contains(msg.flags, "\\Recent") || strings.Contains(msg.flags, "\\Seen") {
+			if !hasFlag(msg.flags, "\\Recent") || hasFlag(msg.flags, "\\Seen") {
 				return false
 			}
 			i++
 
 		case "OLD":
 			// OLD = NOT RECENT
-			if strings.Contains(msg.flags, "\\Recent") {
+			if hasFlag(msg.flags, "\\Recent") {
 				return false
 			}
 			i++
 
 		case "RECENT":
-			if !strings.Contains(msg.flags, "\\Recent") {
+			if !hasFlag(msg.flags, "\\Recent") {
 				return false
 			}
 			i++
 
 		case "SEEN":
-			if !strings.Contains(msg.flags, "\\Seen") {
+			if !hasFlag(msg.flags, "\\Seen") {
 				return false
 			}
 			i++
 
 		case "UNANSWERED":
-			if strings.Contains(msg.flags, "\\Answered") {
+			if hasFlag(msg.flags, "\\Answered") {
 				return false
 			}
 			i++
 
 		case "UNDELETED":
-			if strings.Contains(msg.flags, "\\Deleted") {
+			if hasFlag(msg.flags, "\\Deleted") {
 				return false
 			}
 			i++
 
 		case "UNDRAFT":
-			if strings.Contains(msg.flags, "\\Draft") {
+			if hasFlag(msg.flags, "\\Draft") {
 				return false
 			}
 			i++
 
 		case "UNFLAGGED":
-			if strings.Contains(msg.flags, "\\Flagged") {
+			if hasFlag(msg.flags, "\\Flagged") {
 				return false
 			}
 			i++
 
 		case "UNSEEN":
-			if strings.Contains(msg.flags, "\\Seen") {
+			if hasFlag(msg.flags, "\\Seen") {
 				return false
 			}
 			i++
@@ -384,7 +384,7 @@ func evaluateTokens(msg messageInfo, tokens []string, charset string, userID int
 			}
 			i++
 			keyword := unquote(tokens[i])
-			if !strings.Contains(msg.flags, keyword) {
+			if !hasFlag(msg.flags, keyword) {
 				return false
 			}
 			i++
@@ -396,7 +396,7 @@ func evaluateTokens(msg messageInfo, tokens []string, charset string, userID int
 			}
 			i++
 			keyword := unquote(tokens[i])
-			if strings.Contains(msg.flags, keyword) {
+			if hasFlag(msg.flags, keyword) {
 				return false
 			}
 			i++
@@ -960,6 +960,17 @@ func HandleStore(deps ServerDeps, conn net.Conn, tag string, parts []string, sta
 	deps.SendResponse(conn, fmt.Sprintf("%s OK STORE completed", tag))
 }
 
+// hasFlag reports whether a space-separated flags string contains the given flag
+// (whole flags are compared: "NonJunk" does not contain the flag "Junk")
+func hasFlag(flags string, flag string) bool {
+	for _, f := range strings.Fields(flags) {
+		if f == flag {
+			return true
+		}
+	}
+	return false
+}
+
 // parseFlagsToSet converts a space-separated flags string into a set (map)
 func parseFlagsToSet(flags string) map[string]bool {
 	flagSet := make(map[string]bool)
@@ -1132,7 +1143,7 @@ func HandleCopy(deps ServerDeps, conn net.Conn, tag string, parts []string, stat
 
 		// Prepare flags for copy - preserve existing flags and add \Recent
 		copyFlags := flags
-		if !strings.Contains(copyFlags, `\Recent`) {
+		if !hasFlag(copyFlags, `\Recent`) {
 			if copyFlags == "" {
 				copyFlags = `\Recent`
 			} else {
@@ -1284,7 +1295,7 @@ func HandleAppendWithReader(deps ServerDeps, reader io.Reader, conn net.Conn, ta
 		startIdx := strings.Index(fullLine, "(")
 		endIdx := strings.Index(fullLine, ")")
 		if startIdx < endIdx {
-			flags = fullLine[startIdx+1 : endIdx]
+			flags = strings.Join(strings.Fields(fullLine[startIdx+1:endIdx]), " ")
 		}
 	}
 
@@ -1442,7 +1453,7 @@ func HandleAppend(deps ServerDeps, conn net.Conn, tag string, parts []string, fu
 		startIdx := strings.Index(fullLine, "(")
 		endIdx := strings.Index(fullLine, ")")
 		if startIdx < endIdx {
-			flags = fullLine[startIdx+1 : endIdx]
+			flags = strings.Join(strings.Fields(fullLine[startIdx+1:endIdx]), " ")
 		}
 	}
 
@@ -1601,7 +1612,7 @@ func HandleExpunge(deps ServerDeps, conn net.Conn, tag string, state *models.Cli
 	// We need to get the sequence numbers before deletion
 	rows, err := userDB.Query(`
 		SELECT id, uid FROM message_mailbox
-		WHERE mailbox_id = ? AND flags LIKE '%\Deleted%'
+		WHERE mailbox_id = ? AND instr(' ' || flags || ' ', ' \Deleted ') > 0
 		ORDER BY uid ASC
 	`, state.SelectedMailboxID)
 
